@@ -1,2 +1,3 @@
 pub mod numeral;
 pub mod refarith;
+pub mod regdump;
